@@ -497,14 +497,10 @@ class C15(Check):
                                 {'ops': list(done), 'raiseExceptions': False}, {'outcome': ob})
                     break
                 if sa != sb:
-                    kid = None
-                    if op[0] == 'setnstext' and any(j == op[1] and u != op[3] for j, p, u, t0 in pre_ns):
-                        kid = 'C15-logmode-csstext-partial'
                     ctx.violate('what an operation does to the sheet does not depend on the error mode: a call that is '
                                 'rejected with raiseExceptions=True changes nothing when the error is only logged',
                                 {'ops': list(done), 'raiseExceptions': False},
-                                {'outcome_raising': oa, 'outcome_logging': ob, 'state_raising': sa, 'state_logging': sb},
-                                known=kid)
+                                {'outcome_raising': oa, 'outcome_logging': ob, 'state_raising': sa, 'state_logging': sb})
                     break
 
     # -- a selector means the same inside @media as at the top level of the same sheet ------------------
@@ -541,11 +537,10 @@ class C15(Check):
                 ctx.case(key=('media-insert', text, rule_text), nontrivial=bool(declared), kind='media-insert:' + o1,
                          sample=wit)
                 if (o1, it1) != (o2, it2):
-                    kid = 'C15-media-insert-string' if declared else None
                     ctx.violate('a selector inserted into an @media rule resolves its prefixes and the default namespace '
                                 'as the same selector inserted at the top level of the same sheet does', wit,
                                 {'in_media': [o1, it1], 'top_level': [o2, it2],
-                                 'namespaces': dict(s1.namespaces.items())}, known=kid)
+                                 'namespaces': dict(s1.namespaces.items())})
         finally:
             c.log.raiseExceptions = old
 
@@ -578,8 +573,7 @@ class C15(Check):
                     # (being rejected because of the comment is the grammar's business, not a change of meaning)
                     ctx.violate('a comment between a namespace prefix and the name does not change what the name denotes '
                                 '(an accepted selector has the same items as without the comment)',
-                                {'selector': commented, 'namespaces': d}, {'with_comment': b, 'without': a},
-                                known='C15-comment-after-prefix')
+                                {'selector': commented, 'namespaces': d}, {'with_comment': b, 'without': a})
         finally:
             c.log.raiseExceptions = old
 
@@ -746,8 +740,6 @@ class KnownRegions:
     def classify(self, op, pre_map, pre_ns, outcome, changed):
         """operation-defined regions: (operation, state before it) -> finding id"""
         k = op[0]
-        if k == 'setnstext' and outcome.startswith('ok') and any(j != op[1] and p == op[2] for j, p, u, t0 in pre_ns):
-            return 'C15-csstext-prefix-collision'
         if k == 'rawdel' and outcome.startswith('ok'):
             hit = [u for j, p, u, t0 in pre_ns if j == op[1]]
             if hit and [u for j, p, u, t0 in pre_ns].count(hit[0]) == 1:
